@@ -618,7 +618,7 @@ type famWeight struct {
 }
 
 var defaultFamilies = []famWeight{
-	{"K1", 30}, {"K2", 18}, {"K3", 10}, {"K4", 7}, {"K5", 10}, {"K6", 8}, {"K7", 5}, {"Krand", 6}, {"Kshort", 6}, {"Kmix", 8},
+	{"K1", 30}, {"K2", 18}, {"K3", 10}, {"K4", 7}, {"K5", 10}, {"K6", 8}, {"K7", 5}, {"Krand", 6}, {"Kshort", 6}, {"Kmix", 8}, {"Kbd", 4},
 }
 
 func genKeysFam(t *rapid.T, fams []famWeight, sc sizeCap) ([]string, string) {
@@ -662,6 +662,8 @@ func genKeysFam(t *rapid.T, fams []famWeight, sc sizeCap) ([]string, string) {
 		keys = genKmix(t, maxN)
 	case "Krand":
 		keys = genRandomBytes(t, maxN)
+	case "Kbd":
+		keys = genBigDedupKeys(t)
 	case "Kshort":
 		maxS := 7
 		big := sc.big
@@ -1064,7 +1066,13 @@ func genTrieCase(t *rapid.T, g trieGenOpt) *Case {
 		c.Opt = genOpt(t)
 	}
 	c.HasVals = g.needVals || rapid.IntRange(0, 4).Draw(t, "hasvals") != 0
-	if c.HasVals {
+	if strings.HasPrefix(fam, "Kbd") {
+		// the family exists for its value layout: whole first-byte branches are
+		// de-duplicated away (dedup is left to the drawn options: with it off the
+		// shape is simply a wide root over repeated nodes)
+		c.HasVals = true
+		c.Vals, c.VMode = genBigDedupVals(t, keys, c.Enc), "bigdedup"
+	} else if c.HasVals {
 		if len(keys) >= 8 && pickU(t, "branchvals", 6) == 0 {
 			c.Vals, c.VMode = genBranchVals(t, keys, c.Enc), "branch"
 		} else {
@@ -1269,4 +1277,134 @@ func genPeriodic(t *rapid.T, maxN int) []string {
 		}
 	}
 	return uniqSorted(keys)
+}
+
+// Kbd (session 2; the seeded change C01-b had become a one-seed-in-four catch):
+// a node that is WIDE by the number of distinct next bytes among all keys (so the
+// builder makes it a 257-bit node) but keeps only 1..6 labels once value
+// de-duplication has dropped whole branches; the kept labels mix bytes below 0x10
+// (which land in the first 17 bits of the bitmap) with bytes from 0x3f on; below
+// every first byte hang the same small nibble subtrees, so that identical 17-bit
+// nodes repeat and a short-node table is built. Optionally the wide node sits
+// below a one- or two-byte common prefix, and a second wide node follows.
+func genBigDedupKeys(t *rapid.T) []string {
+	prefix := string(rapid.SliceOfN(rapid.Byte(), 0, 2).Draw(t, "bdprefix"))
+	if rapid.Bool().Draw(t, "bdform") {
+		// second form: two or three low lead bytes that spell one nibble pair, each
+		// over a full binary subtree whose levels use 2..3 distinct nibble pairs, and
+		// a run of 11..40 single-byte keys with high bytes (one value for the run)
+		pairs := [][2]byte{{1, 2}, {1, 3}, {2, 3}, {0, 1}, {4, 5}, {0, 2}, {14, 15}}
+		o := pickU(t, "bdpairoff", len(pairs))
+		npal := rapid.IntRange(2, 3).Draw(t, "bdpal")
+		depth := 2 * rapid.IntRange(1, 3).Draw(t, "bddepth")
+		level := make([][2]byte, depth)
+		for d := range level {
+			level[d] = pairs[(o+pickU(t, "bdlevel", npal))%len(pairs)]
+		}
+		leadPair := pairs[(o+pickU(t, "bdlead", npal))%len(pairs)]
+		set := map[string]struct{}{}
+		for _, lead := range leadPair {
+			for i := 0; i < 1<<uint(depth); i++ {
+				k := []byte{lead}
+				for j := 0; j < depth; j += 2 {
+					k = append(k, level[j][(i>>uint(j))&1]<<4|level[j+1][(i>>uint(j+1))&1])
+				}
+				set[prefix+string(k)] = struct{}{}
+			}
+		}
+		start := rapid.IntRange(0x40, 0xd0).Draw(t, "bdrunstart")
+		run := rapid.IntRange(11, 40).Draw(t, "bdrun")
+		for b := start; b < start+run && b < 256; b++ {
+			set[prefix+string([]byte{byte(b)})] = struct{}{}
+		}
+		return sortedSet(set)
+	}
+	// several nibble sets, each repeated below many first bytes: enough distinct
+	// frequent 17-bit bitmaps for a short table of size 2..4
+	all := [][]byte{{1, 2}, {1, 3}, {2, 3}, {1, 2, 3}, {0, 1}, {0, 2}, {4, 5}, {1, 2, 4}, {0, 1, 2, 3}, {14, 15}, {3}, {1}}
+	np := rapid.IntRange(2, len(all)).Draw(t, "bdpatterns")
+	off := pickU(t, "bdpatoff", len(all))
+	pats := make([][]byte, np)
+	for i := range pats {
+		pats[i] = all[(off+i)%len(all)]
+	}
+	// the low first bytes ARE one of the nibble sets (as bytes): the wide node's
+	// bitmap restricted to its first word then equals a frequent 17-bit bitmap
+	lows := pats[pickU(t, "bdlowset", np)]
+	nHigh := rapid.IntRange(9, 120).Draw(t, "bdhigh")
+	firsts := map[byte]bool{}
+	for _, b := range lows {
+		firsts[b] = true
+	}
+	for len(firsts) < len(lows)+nHigh {
+		firsts[byte(rapid.IntRange(0x3f, 0xff).Draw(t, "highbyte"))] = true
+	}
+	set := map[string]struct{}{}
+	for f := 0; f < 256; f++ {
+		if !firsts[byte(f)] {
+			continue
+		}
+		p := pats[f%np]
+		for _, hi := range p {
+			for _, lo := range p {
+				set[prefix+string([]byte{byte(f), hi<<4 | lo})] = struct{}{}
+			}
+		}
+	}
+	return sortedSet(set)
+}
+
+// genBigDedupVals: every key of a kept branch (1..6 first bytes, at least one low
+// and one high where available) gets a value of its own; every key of any other
+// branch repeats the value of the key before it, so the whole branch is dropped
+// when de-duplication is on.
+func genBigDedupVals(t *rapid.T, keys []string, enc string) []Hex {
+	s := encSpecs[enc]
+	payload := func(id uint64) Hex {
+		if s.name == "String16" {
+			return Hex(fmt.Sprintf("v%x", id))
+		}
+		if s.width == 0 {
+			return Hex(leBytes(id*3+1, 2)) // OptU16: present values
+		}
+		return Hex(leBytes(id, s.width))
+	}
+	// branch = the byte after the longest common prefix of all keys
+	lcp := 0
+	if len(keys) > 1 {
+		a, b := keys[0], keys[len(keys)-1]
+		for lcp < len(a) && lcp < len(b) && a[lcp] == b[lcp] {
+			lcp++
+		}
+	}
+	var branches []byte
+	for _, k := range keys {
+		if len(k) > lcp && (len(branches) == 0 || branches[len(branches)-1] != k[lcp]) {
+			branches = append(branches, k[lcp])
+		}
+	}
+	kept := map[byte]bool{}
+	if rapid.IntRange(0, 3).Draw(t, "bdkeeplows") != 0 {
+		for _, b := range branches {
+			if b < 0x10 {
+				kept[b] = true
+			}
+		}
+	}
+	nk := rapid.IntRange(0, 4).Draw(t, "bdkept")
+	for i := 0; i < nk && len(branches) > 0; i++ {
+		kept[branches[pickU(t, "bdkeep", len(branches))]] = true
+	}
+	if len(branches) > 0 && rapid.Bool().Draw(t, "bdkeepends") {
+		kept[branches[len(branches)-1]] = true
+	}
+	vals := make([]Hex, len(keys))
+	id := uint64(rapid.IntRange(0, 200).Draw(t, "bdbase"))
+	for i, k := range keys {
+		if i == 0 || (len(k) > lcp && kept[k[lcp]]) {
+			id++
+		}
+		vals[i] = payload(id)
+	}
+	return vals
 }
